@@ -97,12 +97,12 @@ func configsFor(part string, thorough bool) []*xcfg {
 		return []*xcfg{
 			{Name: "warm-reads-bfs", Voters: v3, Fifo: true, WarmLeader: true, MaxTerm: 3, MaxIndex: 5, Reads: 2, Timeouts: 1, Proposals: 1, Dups: pick(0, 1)},
 			{Name: "warm-reads-net", Voters: v3, Fifo: true, WarmLeader: true, MaxTerm: 3, MaxIndex: 5, Reads: 2, Heartbeats: 1, Dups: 1, Reorders: 1, Drops: 1},
-			{Name: "reads-deposed-dev", Voters: v3, Fifo: true, MaxDev: pick(2, 3), MaxTerm: 6, MaxIndex: 9, Reads: 2, Timeouts: 2, Proposals: 1, Heartbeats: 1, Dups: 1, Reorders: 1, Drops: 3,
+			{Name: "reads-deposed-dev", Voters: v3, Fifo: true, MaxDev: pick(2, 3), MaxTerm: 6, MaxIndex: 9, Reads: 1, Timeouts: pick(1, 2), Proposals: pick(0, 1), Heartbeats: 1, Dups: 1, Reorders: 1, Drops: 2,
 				Script: []string{"T1", "H1", "P1", "R1", "H1", "R2", "P2", "R3", "H1"}},
 			{Name: "reads-partitioned-old-leader-dev", Voters: v3, NonVotings: []uint64{4}, Fifo: true, MaxDev: pick(2, 3), MaxTerm: 6, MaxIndex: 10, Reads: 1, Partitions: 2, Heartbeats: 1, Dups: 1, Timeouts: 1,
 				Script: []string{"T1", "H1", "P1", "T2", "H2", "P2", "H2", "R1", "H1", "R4", "H1", "H1"}},
-			{Name: "reads-5v-partitioned-dev", Voters: []uint64{1, 2, 3, 4, 5}, Fifo: true, MaxDev: 2, MaxTerm: 6, MaxIndex: 10, Reads: 1, Partitions: 1, Heartbeats: 2, Dups: 1,
-				Script: []string{"T1", "H1", "P1", "T3", "H3", "P3", "H3", "R1", "H1", "R2", "H1", "H1"}},
+			{Name: "reads-5v-partitioned-dev", Voters: []uint64{1, 2, 3, 4, 5}, Fifo: true, MaxDev: pick(1, 2), MaxTerm: 6, MaxIndex: 10, Reads: pick(0, 1), Partitions: 1, Heartbeats: pick(1, 2), Dups: pick(0, 1),
+				Script: []string{"T1", "P1", "T3", "P3", "H3", "R1", "H1", "R2", "H1", "H1"}},
 			{Name: "reads-nonvoting-dev", Voters: v3, NonVotings: []uint64{4}, Fifo: true, MaxDev: pick(2, 3), MaxTerm: 5, MaxIndex: 8, Reads: 2, Timeouts: 1, Proposals: 1, Heartbeats: 1, Dups: 1, Drops: 2,
 				Script: []string{"T1", "H1", "P1", "R4", "H1", "R4", "R1"}},
 			{Name: "reads-newleader-dev", Voters: v3, Fifo: true, MaxDev: pick(2, 3), MaxTerm: 6, MaxIndex: 9, Reads: 2, Timeouts: 1, Proposals: 1, Heartbeats: 1, Drops: 3,
@@ -141,7 +141,7 @@ func configsFor(part string, thorough bool) []*xcfg {
 		return []*xcfg{
 			{Name: "2v+w-bfs", Voters: []uint64{1, 2}, Witnesses: []uint64{3}, Fifo: true, MaxTerm: 3, MaxIndex: 5, Timeouts: 2, Proposals: 2, Drops: 1},
 			{Name: "2v+nv-bfs", Voters: []uint64{1, 2}, NonVotings: []uint64{3}, Fifo: true, MaxTerm: 3, MaxIndex: 5, Timeouts: 2, Proposals: 2, Reads: 1, Drops: 1},
-			{Name: "3v+nv-promote-dev", Voters: v3, NonVotings: []uint64{4}, Fifo: true, LazyApply: true, MaxDev: pick(2, 3), MaxTerm: 6, MaxIndex: 10, ConfChanges: 1, Timeouts: 2, Drops: 2, Proposals: 1, Crashes: 1,
+			{Name: "3v+nv-promote-dev", Voters: v3, NonVotings: []uint64{4}, Fifo: true, LazyApply: true, MaxDev: pick(2, 3), MaxTerm: 6, MaxIndex: 10, ConfChanges: pick(0, 1), Timeouts: pick(1, 2), Drops: pick(1, 2), Proposals: pick(0, 1), Crashes: pick(0, 1),
 				CCMenu: ccMenu, Script: []string{"T1", "H1", "P1", "C1:0", "H1", "H1", "P4", "H1"}},
 			{Name: "2v+w+nv-dev", Voters: []uint64{1, 2}, Witnesses: []uint64{3}, NonVotings: []uint64{4}, Fifo: true, MaxDev: pick(2, 3), MaxTerm: 6, MaxIndex: 10, Timeouts: 2, Drops: 3, Proposals: 2, Snapshots: 1, Crashes: 1, Reads: 1, Reports: 1,
 				Script: []string{"T1", "H1", "P1", "S1", "P2", "H1", "R4", "H1"}},
